@@ -19,7 +19,8 @@ META = {
         'jointly satisfiable (a map filled only for < 1.1 and read only for >= 1.1 is a finding: that is how sense-frame links '
         'were lost); R3 every _export_metadata(rowid, T) passes a sanitized table name T and a rowid that is the rowid column '
         'of T in the query row it was unpacked from; R4 every query the exporter issues is scoped by the one-tuple of the '
-        'exported lexicon rowid (C04-R2); R5 export() runs _precheck before building anything and writes through lmf.dump.'),
+        'exported lexicon rowid (C04-R2); R5 export() runs _precheck before building anything and writes through lmf.dump; '
+        'R8 no comparison in the exporter tests a stored value against a constant (the exported content of an element does not depend on its part of speech, type, ...).'),
     'decides': ['exporter key coverage', 'version-guard consistency', 'metadata provenance', 'single-lexicon scoping', 'precheck first'],
     'not_decided': ['value-level reconstruction (e.g. ili="in" for a proposed ILI without definition)', 'equality of re-imported databases'],
     'assumptions': [],
@@ -573,6 +574,76 @@ def r7_no_shared_records(ctx, res):
     report(ctx, res, {'_export'}, 'export')
 
 
+# ---------------------------------------------------------------------------
+# R8: the exporter does not special-case stored values
+
+def _is_constant_operand(n):
+    if isinstance(n, ast.Constant) and n.value is not None:
+        return True
+    if isinstance(n, ast.Name) and n.id.isupper():
+        return True
+    if isinstance(n, ast.Attribute) and n.attr.isupper():
+        return True
+    if isinstance(n, (ast.Tuple, ast.List, ast.Set)) and n.elts and all(_is_constant_operand(e) for e in n.elts):
+        return True
+    return False
+
+
+def _mentions_version(n):
+    return any(isinstance(x, ast.Name) and x.id == 'version' for x in ast.walk(n))
+
+
+def classify_compare(node):
+    """category of a comparison in the exporter, or None when it tests a stored value against a constant"""
+    operands = [node.left] + list(node.comparators)
+    if any(_mentions_version(o) for o in operands):
+        return 'version'
+    if all(isinstance(op, (ast.Is, ast.IsNot)) for op in node.ops) and any(isinstance(o, ast.Constant) and o.value is None for o in operands):
+        return 'None test'
+    if any(_is_constant_operand(o) for o in operands):
+        return None
+    if all(isinstance(op, (ast.In, ast.NotIn)) for op in node.ops):
+        return 'membership in a computed collection'
+    return 'comparison of two computed values'
+
+
+_R8_CONTROL = [("pos == ADJ", None), ("pos in ('a', 's')", None), ("table != 'senses'", None), ("wn.constants.ADJ == pos", None),
+               ("version >= (1, 1)", 'version'), ("rowid is not None", 'None test'), ("id in sbmap", 'membership in a computed collection')]
+
+
+def r8_value_independent(ctx, res):
+    """what the exporter writes for an element does not depend on comparing a stored value (part of speech, relation type,
+    table name, ...) with a constant: the schema does not tie the presence of one value to the content of another (an
+    adjposition row may exist for a sense of any part of speech), so such a switch drops or alters data for some stored
+    lexicon.  Every comparison in wn/_export.py is a version comparison, a None test or a test between computed values."""
+    for text, want in _R8_CONTROL:
+        got = classify_compare(ast.parse(text, mode='eval').body)
+        if got != want:
+            raise AnalysisError(f'C03-R8 classifier no longer separates its control `{text}`: {got!r}')
+    exp = ctx.repo.mod('_export')
+    n = 0
+    for f in exp.funcs.values():
+        if f.name == '_precheck':
+            continue
+        for node in walk_no_nested(f.node):
+            if isinstance(node, ast.Compare):
+                n += 1
+                key = f'compare:{f.qualname}:{norm(node)[:60]}'
+                kind = classify_compare(node)
+                res.inst(key, exp.loc(node), kind or 'value against constant')
+                if kind is None:
+                    res.find(key, exp.loc(node), f'{f.qualname} tests `{norm(node)[:80]}`: what is exported depends on a stored value being equal to a '
+                                                 f'constant; stored lexicons for which the test fails lose or change that part on export')
+            elif isinstance(node, ast.Call) and isinstance(node.func, ast.Attribute) and node.func.attr in ('startswith', 'endswith') \
+                    and not _mentions_version(node):
+                n += 1
+                key = f'compare:{f.qualname}:{norm(node)[:60]}'
+                res.inst(key, exp.loc(node), 'value against constant')
+                res.find(key, exp.loc(node), f'{f.qualname} tests `{norm(node)[:80]}`: what is exported depends on the spelling of a stored value')
+    if n < 8:
+        raise AnalysisError(f'only {n} comparisons found in wn/_export.py')
+
+
 RULES = [
     ('C03-R1', r1_coverage, 75),
     ('C03-R2', r2_guard_consistency, 3),
@@ -581,4 +652,5 @@ RULES = [
     ('C03-R5', r5_precheck_first, 6),
     ('C03-R6', r6_proposed_ili_marker, 3),
     ('C03-R7', r7_no_shared_records, 3),
+    ('C03-R8', r8_value_independent, 8),
 ]
